@@ -49,7 +49,7 @@ def build(seed, tier):
     st = seeds.streams(seed)
     rc = st[seeds.CONFIG]
     h = histories.gen_history(st, n_ops=rc.randint(1, 12), fault_rate=0.3, fault_classes=FAULT_CLASSES,
-                              threaded_rate=0.1, size=rc.randint(0, 4), exotic_args=False)
+                              threaded_rate=0.1, size=rc.randint(0, 4), exotic_args=False, before_after=True)
     tracer = rc.choice(['none', 'none', 'native', 'calls'])
     return {'files': h['files'], 'ops': h['ops'], 'config': {'tracer': tracer, 'ref': True},
             'meta': {'tracer': tracer, 'seed': seed}}
@@ -117,6 +117,27 @@ def judge(spec, res):
             ro = ref['outcome']
             if ro is not None and 'Exception' not in ro['mro'] and 'SystemExit' not in ro['mro']:
                 return vs
+            if o.get('ref_multi'):
+                # run(before=, after=): every piece is an execution of its own, in order
+                subs = o['ref_multi']
+                if len(o['new_contexts']) != len(subs):
+                    viol('execution-count', 'run(before/after) made %d execution records, expected %d' % (len(o['new_contexts']), len(subs)))
+                    return vs
+                for sub, c in zip(subs, o['new_contexts']):
+                    t_, cons_ = m.execution(sub['events'])
+                    if c['output'] != t_:
+                        viol('context-output', 'own record %r, that piece wrote %r' % (c['output'][-60:], t_[-60:]))
+                    if c['inputs'] != cons_:
+                        viol('context-inputs', 'own record %r, input() returned %r' % (c['inputs'], cons_))
+                text = ''.join(''.join(e[1] for e in sub['events'] if e[0] == 'out') for sub in subs)
+                if o['raw_output'] != m.raw:
+                    viol('raw-output', 'get_raw_output() %r, model %r' % (o['raw_output'][-70:], m.raw[-70:]))
+                if o['output'] != m.lines:
+                    viol('line-view', 'get_output() tail %r, model tail %r' % (o['output'][-4:], m.lines[-4:]))
+                if vs:
+                    return vs
+                prev_exec = 'printing' if text.strip() else ('blank-only' if text else 'silent')
+                continue
             text, consumed = m.execution(ref['events'])
             if not o['new_contexts']:
                 viol('no-context-recorded', 'execution left no context')
